@@ -349,11 +349,15 @@ def main():
     chk.bounds = ["non-singlet: orders 1-4, methods iterate-exact, iterate-expanded, truncated, ordered-truncated; schemes exponentiated and expanded; symbolic gamma_k, beta_k, L",
                   "singlet: truncated and perturbative-exact with general 2x2 gamma at order 2 (quick), order 3 (thorough); decompose-exact with diagonal gamma at order 2 (quick) and 3 (thorough)",
                   "xif2=1: all eight methods, orders 1-4 (non-singlet) / 1-3 (singlet), exact identity",
-                  "Operator.mu2: symbolic scales, 3 modes x is_threshold"]
+                  "Operator.mu2: symbolic scales, 3 modes x is_threshold",
+                  "Operator wiring (harness/opwire.py): the real compute_a / compute_aem_list / quad_ker on an object built without __init__, symbolic scales, recording couplings: scales the couplings are asked for and the arguments (Lsv = ln xif2, scales, flags) that reach quad_ker_ad"]
     chk.stubs = ["ekore anomalous dimensions (ad_us.gamma_ns / gamma_singlet) -> symbolic towers", "eko.beta -> symbolic beta_k; as4 roots -> symbolic roots",
                  "running coupling -> series solution of the truncated RGE over ln xi^2 (harness oracle)"]
     chk.out_of_claim = ["x-space operators and interpolation", "threshold crossing", "QED x QCD scale variations", "measured scaling exponents of full solves"]
     chk.case("mu2", case_mu2)
+    from . import opwire
+
+    opwire.add_cases(chk, "C51", thorough)
     for sch in ("exponentiated", "expanded"):
         for o in (1, 2, 3, 4):
             for mth in ("ITERATE_EXACT", "ITERATE_EXPANDED", "TRUNCATED", "ORDERED_TRUNCATED"):
